@@ -684,7 +684,7 @@ func TestC31(t *testing.T) {
 
 	bin := proc.Build(t, "./c31/cmd/c31origin", false)
 	base := ev.TempDir(t, "c31-")
-	n := run.N(10, 150)
+	n := run.N(10, 120)
 	rr := run.Rand("scripts")
 	var scripts []script
 	for i := 0; i < n; i++ {
